@@ -121,6 +121,18 @@ func loadKnown(dir string) *KnownFindings {
 // finish writes evidence and violation files, prints verdict lines and
 // returns the exit code.
 func (r *Report) finish(verifDir string) int {
+	if r.Assumptions == nil {
+		r.Assumptions = []string{}
+	}
+	if r.NotDecided == nil {
+		r.NotDecided = []string{}
+	}
+	if r.Advisory == nil {
+		r.Advisory = []string{}
+	}
+	if strings.TrimSpace(r.Explanation) == "" {
+		r.Explanation = "static analysis of property " + r.Property + " (see DESIGN.md)"
+	}
 	kf := loadKnown(verifDir)
 	known := map[string]string{}
 	for _, f := range kf.Findings {
